@@ -92,6 +92,42 @@ def check_exact_refusal(ctx, A, config, RULE_NAME):
     return val
 
 
+def check_slow_path_guard(ctx, db, config, RULE='O7'):
+    # ---- O7 a new chunk is requested only after the current chunk refused the request: the chunk-acquiring slow path is
+    # called from one place, under the None fact of the bumping function for the same layout.  (Going to the slow path
+    # directly obtains a doubled chunk per call although the current one has room: linear chunk count, unbounded overhead.)
+    slow = [b for b in db.fn_bodies() if b['kind'] == 'assoc_fn' and b['meta'].get('impl_adt') == 'Bump' and b['meta'].get('name') == 'alloc_layout_slow']
+    if not slow:
+        ctx.anchor_missing(RULE, 'Bump::alloc_layout_slow')
+    else:
+        callers = db.callers_of(slow[0]['meta']['path']) + [c for c in db.callers_of(slow[0]['id']) if c not in db.callers_of(slow[0]['meta']['path'])]
+        seen = set()
+        n7 = 0
+        for cb, bi, t in callers:
+            if (cb['id'], bi) in seen:
+                continue
+            seen.add((cb['id'], bi))
+            n7 += 1
+            J, r = arena.run_fn(ctx, cb['id'], config)
+            ce = [e for e in r.events if e.kind == 'call' and len(e.stack) == 1 and e.block == bi]
+            fn = arena.short(cb['id'])
+            okv = False
+            if ce:
+                L = ce[0].args[1] if len(ce[0].args) > 1 else None
+                for f in ce[0].state.facts:
+                    if f[0] == 'is' and f[2] == 'None':
+                        # the value known to be None is the result of the bumping function for the same layout
+                        for c2 in r.events:
+                            if c2.kind == 'call' and len(c2.stack) == 1 and c2.ret is not None and (c2.callee or '').endswith('::try_alloc_layout_fast') and len(c2.args) > 1 and c2.args[1] == L:
+                                if f[1] == c2.ret or c2.ret in subterms(f[1]) or f[1] in subterms(c2.ret):
+                                    okv = True
+            if okv:
+                ctx.ok(RULE, '%s calls the chunk-acquiring slow path only after try_alloc_layout_fast returned None for the same layout' % fn, 'must-fact at the call')
+            else:
+                ctx.violation(RULE, fn, 'slow-path-unguarded', '%s calls alloc_layout_slow on a path where the current chunk was not tried (no None result of try_alloc_layout_fast for the same layout is known): a new chunk is requested although the request may fit' % fn, t.get('span'))
+        ctx.floor(RULE, n7, 1, 'call sites of the chunk-acquiring slow path')
+
+
 def run(ctx, config='rel-all'):
     A = arena.analyse(ctx, config)
     db = ctx.db(config)
@@ -210,7 +246,36 @@ def run(ctx, config='rel-all'):
         pays = arena.success_payloads(J, r)
         cap = ('load', ('fld', ('deref', ('param', 1)), 'collections::raw_vec::RawVec.cap'), 0)
         want = app('max', app('add', ('param', 2), ('param', 3)), app('mul', cap, C(2)))
-        okv = bool(pays) and all(t == want for t, _ in pays)
+        req, dbl = app('add', ('param', 2), ('param', 3)), app('mul', cap, C(2))
+
+        def is_max(t):
+            if t == want:
+                return True
+            if t[0] == 'phi':
+                pf = J.phi_facts.get(t[1][:2], {})
+                seen = set()
+                for p_, x in t[2]:
+                    fs = set(pf.get(p_, ()))
+                    if x == req and (('lt', dbl, req) in fs or ('le', dbl, req) in fs):
+                        seen.add('req')
+                    elif x == dbl and (('le', req, dbl) in fs or ('lt', req, dbl) in fs):
+                        seen.add('dbl')
+                    else:
+                        return False
+                return seen == {'req', 'dbl'}
+            return False
+        okv = bool(pays) and all(is_max(t) for t, _ in pays)
+        if not okv and pays:
+            # max(..) written as if / else: the alternatives are the two operands, each under the comparison that selects it
+            kinds = set()
+            for t, fs in pays:
+                if t == req and (('lt', dbl, req) in fs or ('le', dbl, req) in fs):
+                    kinds.add('req')
+                elif t == dbl and (('le', req, dbl) in fs or ('lt', req, dbl) in fs):
+                    kinds.add('dbl')
+                else:
+                    kinds.add('other')
+            okv = kinds == {'req', 'dbl'}
         checked = any(f[0] in ('is', 'nooverflow') and 'checked_add' in repr(f) for _, fs in pays for f in fs)
         if okv and checked:
             ctx.ok('O4', 'amortized_new_size == max(2*cap, used + extra) with a checked sum', show(want)[:80])
@@ -242,39 +307,7 @@ def run(ctx, config='rel-all'):
             else:
                 ctx.violation('O5', fn, 'strategy', '%s reaches the raw buffer with strategy %s, expected %s (growth through this entry point would %s)' % (fn, sorted(strat) or 'none', want, 'not be geometric' if want == 'Amortized' else 'over-allocate'), bs[0].get('span'))
         ctx.floor('O5', n5, 14, 'growing entry points of Vec / String checked for their growth strategy')
-    # ---- O7 a new chunk is requested only after the current chunk refused the request: the chunk-acquiring slow path is
-    # called from one place, under the None fact of the bumping function for the same layout.  (Going to the slow path
-    # directly obtains a doubled chunk per call although the current one has room: linear chunk count, unbounded overhead.)
-    slow = [b for b in db.fn_bodies() if b['kind'] == 'assoc_fn' and b['meta'].get('impl_adt') == 'Bump' and b['meta'].get('name') == 'alloc_layout_slow']
-    if not slow:
-        ctx.anchor_missing('O7', 'Bump::alloc_layout_slow')
-    else:
-        callers = db.callers_of(slow[0]['meta']['path']) + [c for c in db.callers_of(slow[0]['id']) if c not in db.callers_of(slow[0]['meta']['path'])]
-        seen = set()
-        n7 = 0
-        for cb, bi, t in callers:
-            if (cb['id'], bi) in seen:
-                continue
-            seen.add((cb['id'], bi))
-            n7 += 1
-            J, r = arena.run_fn(ctx, cb['id'], config)
-            ce = [e for e in r.events if e.kind == 'call' and len(e.stack) == 1 and e.block == bi]
-            fn = arena.short(cb['id'])
-            okv = False
-            if ce:
-                L = ce[0].args[1] if len(ce[0].args) > 1 else None
-                for f in ce[0].state.facts:
-                    if f[0] == 'is' and f[2] == 'None':
-                        # the value known to be None is the result of the bumping function for the same layout
-                        for c2 in r.events:
-                            if c2.kind == 'call' and len(c2.stack) == 1 and c2.ret is not None and (c2.callee or '').endswith('::try_alloc_layout_fast') and len(c2.args) > 1 and c2.args[1] == L:
-                                if f[1] == c2.ret or c2.ret in subterms(f[1]) or f[1] in subterms(c2.ret):
-                                    okv = True
-            if okv:
-                ctx.ok('O7', '%s calls the chunk-acquiring slow path only after try_alloc_layout_fast returned None for the same layout' % fn, 'must-fact at the call')
-            else:
-                ctx.violation('O7', fn, 'slow-path-unguarded', '%s calls alloc_layout_slow on a path where the current chunk was not tried (no None result of try_alloc_layout_fast for the same layout is known): a new chunk is requested although the request may fit' % fn, t.get('span'))
-        ctx.floor('O7', n7, 1, 'call sites of the chunk-acquiring slow path')
+    check_slow_path_guard(ctx, db, config, 'O7')
     # ---- O8 a collection with spare capacity does not move: every growing primitive reserves exactly the number of elements
     # it is about to add (reserving more makes an insertion that fits reallocate)
     if config != 'rel-default':
